@@ -9,6 +9,8 @@ from ..lib import call
 
 PROP = "C12"
 PLAN = {"quick": (1600, 400), "thorough": (240000, 3600)}
+LARGE = (0.02, 24)  # (share, largest size) of the large class of gen.kv: 17+ control points, degree up to 8
+STEP_BUDGET = 20_000_000  # loop line events per outermost call: ten times the default, for the large class
 RULE = ("case = (knot vector with non uniform / repeated knots, optional weights, data points or an in-space function, "
         "explicit or default nodes, Fraction / float); classes: over-determined data, len(points) == npts "
         "(interpolation), samples of an in-space curve (reproduction), fit_function of an in-space polynomial / rational "
@@ -44,6 +46,13 @@ def gen_case(rng, idx, tier):
     else:
         pool = sorted({a + (b - a) * F(i, 41) for i in range(0, 42)} | set(ref.distinct(U)))
         nodes = sorted(rng.sample(pool, min(cnt, len(pool))))
+        if kind == "interp" and len(nodes) >= 2 and rng.random() < 0.35:
+            # two interpolation nodes 3e-5..3e-4 of the interval apart: a legal, moderately ill-conditioned square system
+            # (condition number 1e3..1e5), where a solver that squares the condition number loses 1e-8..1e-6
+            i = rng.randrange(len(nodes) - 1)
+            near = nodes[i] + (b - a) * F(1, rng.choice([3000, 10000, 30000]))
+            if near < nodes[i + 1]:
+                nodes[i + 1] = near
         if rng.random() < 0.5:
             rng.shuffle(nodes)  # (z_k, Z_k) pairs may come in any order
         cnt = len(nodes)
